@@ -211,18 +211,35 @@ def rule_b(R, ctx, rid="C17.b"):
         return False
 
     sites = []
-    for root, css in sorted(callers_of(Y, *CONTENT_READERS).items()):
-        for cs, site in ordinal_sites(css):
-            fn = cs.fn
-            v = FnView(fn)
-            recv = simp_deep(v.arg(cs, 0))
-            base = recv[2] if recv[0] == "field" else recv
-            if (simp(base)[0] == "param" or (recv[0] == "param")) and "{closure" not in fn.path:
-                R.ob(rid, fn, site, True, "accessor on its own parameter (%s): liveness is the callers' obligation" % show(recv),
-                     cs.loc(), nontrivial=False)
-                continue
-            # a closure's parameter is an element its enclosing function took from a table or a list: the obligation stays here
-            sites.append((fn, cs.bb, site, cs.loc(), recv))
+    readers = list(CONTENT_READERS)
+    done_readers = set()
+    delegated = {}
+    # a function that reads the content of its own parameter hands the obligation to ITS callers: those call sites are content
+    # reads too (Out::try_from(ItemPtr) behind MapRef::as_prelim) — followed to a fixpoint
+    while readers:
+        batch = [r for r in readers if r not in done_readers]
+        readers = []
+        if not batch:
+            break
+        done_readers |= set(batch)
+        for root, css in sorted(callers_of(Y, *batch).items()):
+            for cs, site in ordinal_sites(css):
+                fn = cs.fn
+                v = FnView(fn)
+                if not cs.args:
+                    continue
+                recv = simp_deep(v.arg(cs, 0))
+                base = recv[2] if recv[0] == "field" else recv
+                if (simp(base)[0] == "param" or (recv[0] == "param")) and "{closure" not in fn.path:
+                    R.ob(rid, fn, site, True, "accessor on its own parameter (%s): liveness is the callers' obligation" % show(recv),
+                         cs.loc(), nontrivial=False)
+                    if fn.path not in done_readers and fn.path not in CONTENT_READERS and \
+                            re.search(r"TryFrom<yrs::block::ItemPtr>>::try_from$|::from$", fn.path) and len(done_readers) < 40:
+                        readers.append(fn.path)
+                        delegated[fn.path] = True
+                    continue
+                # a closure's parameter is an element its enclosing function took from a table or a list: the obligation stays here
+                sites.append((fn, cs.bb, site, cs.loc(), recv))
     for fp in READ_TRAVERSALS:
         if "::weak::" in fp and "weak" not in Y.features:
             continue  # compiled only with feature `weak`
